@@ -3,13 +3,15 @@
    `range` over a map with the syntactic class of its body, and every %p verb.  Each listed site must be one of the
    accounted sites, and each accounted class is order-free by one of the generic theorems below; a new map range, or
    an accounted loop whose body changes class (e.g. the sort after collecting is dropped), breaks C09_sites_accounted.
-   Whether the premises of the generic theorems hold at each site (keys mutually exclusive: one `type` rule per node;
-   copied keys distinct) is argued in DESIGN and exercised by repetition, not proved from the compiler model. *)
+   A loop that stops at the first matching key is accounted for only while every key of its map literal (listed by the
+   translator) belongs to the family of constraints a node carries at most one of (site_ok, exclusive_family).
+   That a node carries at most one constraint of that family (one `type` rule per node) and that copied keys are
+   distinct is argued in DESIGN and exercised by repetition, not proved from the compiler model. *)
 From Coq Require Import String List NArith Bool Permutation.
 From JS Require Import Model.Nondet Gen.NondetSites Spec.TypeVocab Proofs.NondetProofs.
 Import ListNotations.
 
-Theorem C09_sites_accounted : forall s, In s map_range_sites -> smem s accounted_sites = true.
+Theorem C09_sites_accounted : forall s, In s map_range_sites -> site_ok s = true.
 Proof. exact sites_accounted. Qed.
 Print Assumptions C09_sites_accounted.
 Theorem C09_pointer_sites_accounted : forall s, In s pointer_format_sites -> smem s accounted_pointer_sites = true.
